@@ -1,5 +1,5 @@
 #!/usr/bin/env python3
-"""cost_table.py [<thorough-run-log>]: regenerate the table of DESIGN.md section 8 between the COST-TABLE markers from
+"""cost_table.py [<thorough-run-log> ...]: regenerate the table of DESIGN.md section 8 between the COST-TABLE markers from
 evidence/*.json (quick tier, written by the last quick run on /repo) and, if given, the log of tools/run_thorough.sh."""
 import json, re, sys, glob, os
 V = "/verif"
@@ -14,10 +14,10 @@ def summ(c):
     if "evaluations" in c: return "%s evaluations (%s distinct non-trivial)" % (f"{c['evaluations']:,}", f"{c.get('distinct_nontrivial', 0):,}")
     return "-"
 thor = {}
-if len(sys.argv) > 1:
-    for line in open(sys.argv[1]):
+for logf in sys.argv[1:]:  # several logs: a later one overrides an earlier one per check
+    for line in open(logf):
         m = re.match(r"== (C\d\d) rc=(\d+) wall=(\d+)s", line)
-        if m: thor.setdefault(m.group(1), {})["wall"] = int(m.group(3)); thor[m.group(1)]["rc"] = int(m.group(2))
+        if m: thor[m.group(1)] = {"wall": int(m.group(3)), "rc": int(m.group(2))}
         m = re.match(r"(C\d\d) thorough: (\{.*\})\s+wall=", line)
         if m:
             try: thor.setdefault(m.group(1), {})["cov"] = json.loads(m.group(2))
